@@ -52,6 +52,14 @@ class ArgsFamily(ScenarioFamily):
             n = r.choice([3000, 9000])
             op0["method"] = "POST"
             op0["body"] = {"len": n, "chunks": gen.gen_chunks(r, n), "oneshot": False}
+        # a quarter of the requests carry the 'target' extension, before or after the
+        # time-outs in the extensions dict
+        rt = gen.mk_rng(seed, "c16target")
+        for c in scn["callers"]:
+            for op in c["ops"]:
+                if op.get("op") == "request" and rt.random() < 0.25:
+                    op["target"] = ("/t/%s?via=target-extension" % op["token"]).encode()
+                    op["ext_order"] = rt.choice(["target-first", "target-last"])
         # distinct values per caller and per kind; some unset, some None
         for ci, c in enumerate(scn["callers"]):
             for op in c["ops"]:
